@@ -83,20 +83,45 @@ def showOptNat : Option Nat → String
   | none => "none"
   | some n => toString n
 
-def batchesOp (v codec mh dlen : Nat) (sizes : List Nat) : Option String :=
+/-- `entries[2i] = presence i`, `entries[2i+1] = block i` until one kind runs out (same as the
+adapter). -/
+def interleave {π β : Type} : List π → List β → List (Entry π β)
+  | [], bs => bs.map .block
+  | ps, [] => ps.map .presence
+  | p :: ps, b :: bs => .presence p :: .block b :: interleave ps bs
+
+def showFrame : Frame (Nat × Nat) (Nat × Nat) → String
+  | .blocks batch len => toString len ++ "/" ++ rle (batch.map Prod.snd)
+  | .presences ps len =>
+    toString len ++ "/P" ++ toString ps.length ++ ":" ++ toString (ps.filter (·.2 = 0)).length
+
+/-- The response of the adapter's `batches` operation: `pres` presences (CID as for the blocks,
+presence `i` is `Have` iff `i % 3 = 0`) interleaved with the blocks, on a substream with the
+configured codec `UnsignedVarint(Some(MAX_MESSAGE_SIZE))`. -/
+def batchesOp (v codec mh dlen : Nat) (sizes : List Nat) (pres : Nat) : Option String :=
   if dlen > MH_ALLOC then none else
   match cidNew v codec mh (List.replicate dlen 0xab) with
   | none => none
   | some cid =>
     let plen := cid.toPrefix.toBytes.length
+    let clen := cid.toBytes.length
     let blocks := sizes.map fun s => (plen, s)
+    let ps := (List.range pres).map fun i => (clen, if i % 3 = 0 then 0 else 1)
     let r := sendResponse lenPair Consts.MAX_BATCH_SIZE Consts.MAX_BATCH_BLOCKS Consts.MAX_MESSAGE_SIZE blocks
-    let msgs := (r.1.filter (·.sent)).map fun st =>
-      showOptNat st.enc ++ "/" ++ rle (st.batch.map Prod.snd)
+    let w := respond lenPres lenPair Consts.MAX_BATCH_SIZE Consts.MAX_BATCH_BLOCKS Consts.MAX_MESSAGE_SIZE
+      Consts.MAX_MESSAGE_SIZE (interleave ps blocks)
     let plan := r.1.map fun st =>
       toString st.batch.length ++ ":" ++ toString (st.batch.map Prod.snd).sum ++ ":" ++ showOptNat st.enc
-    some ("ret=ok msgs=[" ++ joinWith " " msgs ++ "] plan=[" ++ joinWith " " plan ++ "] sub=yes intact=yes"
-      ++ (if r.2 then "" else " out-of-fuel"))
+    let pplan := match presencesMessageLen lenPres ps with
+      | none => "-"
+      | some len => toString pres ++ ":" ++ toString len
+    let ret := match w.2 with
+      | .ok => "ok"
+      | .writeError => "err"
+      | .outOfFuel => "ok"
+    some ("ret=" ++ ret ++ " msgs=[" ++ joinWith " " (w.1.map showFrame) ++ "] plan=[" ++ joinWith " " plan
+      ++ "] pplan=[" ++ pplan ++ "] sub=yes intact=yes pintact=yes"
+      ++ (if r.2 && w.2 != .outOfFuel then "" else " out-of-fuel"))
 
 /-- `<prefix>:<data>[:<digesthex>]` -/
 def item? (s : String) : Option (Bytes × Bytes × Bytes) :=
@@ -121,6 +146,21 @@ def entry (b : Bytes × Bytes × Bytes) : List (Nat × Bytes × Bytes) :=
   | none => []
 
 def showBlock (r : Cid × Bytes) : String := bytesHex r.1.toBytes ++ ":" ++ showData r.2
+
+/-- `pres=<n>`, at most 2^18 presences. -/
+def pres? (s : String) : Option Nat :=
+  match s.splitOn "=" with
+  | ["pres", n] => n.toNat?.bind fun n => if n ≤ 2 ^ 18 then some n else none
+  | _ => none
+
+def batchesLine (v codec mh dlen sizes pres : String) : String :=
+  match v.toNat?, u64? codec, u64? mh, dlen.toNat?, sizes? sizes, pres? pres with
+  | some v, some codec, some mh, some dlen, some runs, some pres =>
+    if v > 1 then "bad-op" else
+    match batchesOp v codec mh dlen (expand runs) pres with
+    | some o => o
+    | none => "bad-op"
+  | _, _, _, _, _, _ => "bad-op"
 
 def step (st : State) (line : String) : State × String :=
   let ts := tokens line
@@ -154,14 +194,8 @@ def step (st : State) (line : String) : State × String :=
       match inboundEvent (family (bs.flatMap entry)) (bs.map fun b => (b.1, b.2.1)) with
       | none => (st, "noevent")
       | some rs => (st, "event " ++ joinWith " " (rs.map showBlock))
-  | ["batches", v, codec, mh, dlen, sizes] =>
-    match v.toNat?, u64? codec, u64? mh, dlen.toNat?, sizes? sizes with
-    | some v, some codec, some mh, some dlen, some runs =>
-      if v > 1 then (st, "bad-op") else
-      match batchesOp v codec mh dlen (expand runs) with
-      | some o => (st, o)
-      | none => (st, "bad-op")
-    | _, _, _, _, _ => (st, "bad-op")
+  | ["batches", v, codec, mh, dlen, sizes] => (st, batchesLine v codec mh dlen sizes "pres=0")
+  | ["batches", v, codec, mh, dlen, sizes, pres] => (st, batchesLine v codec mh dlen sizes pres)
   | _ => (st, "bad-op")
 
 end Litep2pVerif.Driver.C20
